@@ -58,7 +58,8 @@ def compile_once(jobdir, files, mod, wrapper=(), env_extra=None, clean=True):
         p = subprocess.run(cmd, cwd=jobdir, stdout=subprocess.PIPE, stderr=subprocess.STDOUT, timeout=120, env=env)
     except subprocess.TimeoutExpired:
         return None, "TIMEOUT", -1
-    out = normalise(p.stdout.decode("utf8", "replace"))
+    # the working directory is part of the configuration's *location*, not of its source files
+    out = normalise(p.stdout.decode("utf8", "replace").replace(os.path.realpath(jobdir), "<CWD>").replace(jobdir, "<CWD>"))
     obj = os.path.join(jobdir, "out", "main.o")
     sha = hashlib.sha256(open(obj, "rb").read()).hexdigest() if os.path.exists(obj) else None
     return sha, out, p.returncode
@@ -96,6 +97,20 @@ def run(tier, seed):
             configs.append((f"{base.name}/valid{j}", multifile.render(base, perm, assign)))
         for vname, files in invalid_variants(base):
             configs.append((f"{base.name}/{vname}", files))
+    # the repository's example programs (they use the core module: hundreds of types, generics, reflection tables)
+    import glob
+    examples = {os.path.basename(p_): open(p_).read() for p_ in sorted(glob.glob("/repo/examples/*.capy"))}
+    for name, text in examples.items():
+        # the examples import each other by file name, so every configuration holds all of them
+        configs.append((f"example/{name}", dict(examples, **{"main.capy": text})))
+    # one large generated program: the 129-type universe of C02 with a use of every type
+    from . import c02, tyir
+    tys = c02.universe(True)
+    big = c02.BASE + tyir.all_decls(tys) + "\nmain :: () -> i32 {\n"
+    for i, T in enumerate(tys):
+        big += f"    v{i} : {T.spell()} = {T.lit(T.val(i + 1))}; {T.show(f'v{i}', tyir.Fresh(f'q{i}x'))}\n"
+    big += "    0\n}\n"
+    configs.append(("generated/129-types", {"main.capy": big}))
     others = [multifile.render(b, tuple(n for n, _ in b.globs), dict.fromkeys([n for n, _ in b.globs], 0)) for b in multifile.BASES[:3]]
     hist_len = 1 if quick else 2
     histories = [()]
